@@ -755,6 +755,22 @@ impl Server {
                             // Pub/sub commands need immediate response for proper timing coordination
                             "SUBSCRIBE" | "UNSUBSCRIBE" | "PSUBSCRIBE" | "PUNSUBSCRIBE" => {
                                 needs_immediate_flush = true;
+                                // Their handlers write the confirmations straight into the connection's
+                                // buffer: the replies collected so far in this batch must go out first,
+                                // otherwise a pipelined client sees replies out of order
+                                if !responses.is_empty() {
+                                    let earlier: Vec<RespFrame> = std::mem::take(&mut responses);
+                                    self.connections.with_connection(id, |conn| {
+                                        for response in &earlier {
+                                            if let RespFrame::NoResponse = response {
+                                                continue;
+                                            }
+                                            if let Err(e) = conn.send_frame(response) {
+                                                eprintln!("Send error for connection {}: {}", id, e);
+                                            }
+                                        }
+                                    });
+                                }
                             }
                             _ => {}
                         }
